@@ -56,6 +56,27 @@ def handleDis (prog : String) : String :=
     -- C15's domain: on it the disassembler must not panic
     r ++ (if decide (RtSpec.DisasmOk p) then " | dom=in" else " | dom=out")
 
+/-- `dis` with the implementation's own texts echoed back: they are read by the assembler model (proved to implement the
+    documented syntax, C13); for a canonical program they must denote exactly the program's instructions -/
+def handleDisT (prog texts : String) : String :=
+  let base := handleDis prog
+  match parseBytes? prog, (if texts == "texts=-" then some [] else textOf (texts.drop 6).toString) with
+  | some p, some t =>
+    let r := match Asm.assemble cc t with
+      | .ok bs => bytesHex bs
+      | .err => "err"
+      | .panic => "panic"
+    let canon := match RtSpec.canon p with | some xs => bytesHex (xs.flatMap Insn.toArray) | none => "none"
+    -- the model's own texts read back (err exactly when the syntax cannot express an operand, e.g. a negative 32-bit immediate)
+    let rm := match Disasm.toInsnVec p with
+      | none => "none"
+      | some es => match Asm.assemble cc ("\n".intercalate (es.map (·.desc))).toList with
+        | .ok bs => bytesHex bs
+        | .err => "err"
+        | .panic => "panic"
+    base ++ " | textasm=" ++ (if r == "" then "-" else r) ++ " | mtextasm=" ++ (if rm == "" then "-" else rm) ++ " | canon=" ++ (if canon == "" then "-" else canon)
+  | _, _ => base
+
 /-- disassemble, join the texts with newlines, assemble -/
 def handleRt (prog : String) : String :=
   match parseBytes? prog with
